@@ -1,9 +1,17 @@
 use crate::engine::PropertyDef;
+use crate::fuzzglue::FuzzDef;
 
 pub mod c13;
 
 pub fn registry() -> Vec<PropertyDef> {
   vec![
     PropertyDef { id: "C13", run: c13::run, replay: c13::replay },
+  ]
+}
+
+/// Properties that have a libFuzzer target (harness/fuzz/fuzz_targets/*.rs) and how bytes become cases.
+pub fn fuzz_registry() -> Vec<FuzzDef> {
+  vec![
+    FuzzDef { id: "C13", decode: c13::fuzz_decode },
   ]
 }
